@@ -139,6 +139,8 @@ class Locker:
         self.last_renamed_in = False
         self.last_seen = None
         self.saved_bytes = None
+        self.exam_acq = None
+        self.failed_rename_in = False
         self.in_attempt = False
         self.err = None
 
@@ -177,6 +179,10 @@ class Sim:
         self.wrong = False
         self.chkfault = False
         self.steal_bad = None
+        self.nonce_reuse = None
+        self.later_bad = None
+        self.cur_acq = None     # id of the acquisition (successful rename into place) that produced the current held
+        self.acq_n = 0
         self.cur_event = None
 
     # -- scheduling
@@ -263,12 +269,20 @@ class Sim:
             n = parse_nonce(a[1])
             if n is not None and n not in self.nonces:
                 self.nonces[n] = (pid, L.putcount)
+            elif n is not None and self.nonce_reuse is None:
+                # the model's "nonces are unique by construction" checked on the implementation
+                self.nonce_reuse = ("locker %d writes an info file with nonce %r which was already used by acquisition %r"
+                                    % (pid, n, self.nonces[n]))
             L.putcount += 1
             a[1] = rewrite_info(a[1], L.wid)
         was_renamed_in = L.last_renamed_in
         L.last_renamed_in = False
+        after_failed_rename_in = L.failed_rename_in
+        L.failed_rename_in = False
         if L.fault is not None and idx == L.fault:
             ev["res"] = "InjectedFault"
+            if kindtag == "rename_in":
+                L.failed_rename_in = True
             if ev["k"] == "get_held" and was_renamed_in and L.cmd == "attempt":
                 self.chkfault = True
             raise _fault_class()()
@@ -278,13 +292,24 @@ class Sim:
             r = fn(*a, **kw)
         except Exception as e:
             ev["res"] = type(e).__name__
+            if kindtag == "rename_in":
+                L.failed_rename_in = True
+            if ev["k"] == "get_held" and (L.cmd == "peek" or (L.cmd == "attempt" and after_failed_rename_in)):
+                L.exam_acq = None
             raise
         if kindtag == "rename_in":
             L.last_renamed_in = True
+            self.acq_n += 1
+            self.cur_acq = self.acq_n
+        if kindtag == "rename_out":
+            self.cur_acq = None
         if ev["k"] == "get_held":
             L.last_seen = r
             if L.cmd == "peek":
                 L.saved_bytes = r
+            # which ACQUISITION the user (driver's peek) / the steal policy (contention peek) examined
+            if L.cmd == "peek" or (L.cmd == "attempt" and after_failed_rename_in):
+                L.exam_acq = self.cur_acq
         if kindtag == "rename_out" and ev.get("to") == "broken":
             L.cmd_broke = True
         return r
@@ -303,6 +328,10 @@ class Sim:
         if examined is not None and examined != data:
             self.wrong = True
             ev["wrong"] = True
+        elif L.exam_acq != self.cur_acq and self.later_bad is None:
+            # same bytes as examined, yet a different acquisition: the lock of a LATER holder is being removed
+            self.later_bad = ("locker %d breaks acquisition #%r (victim %r) but the holder it examined was acquisition #%r"
+                              % (L.pid, self.cur_acq, ev["victim"], L.exam_acq))
         if n in self.nonces:
             o = self.nonces[n][0]
             if o < len(self.lockers):
@@ -320,7 +349,8 @@ class Sim:
                   and info.user == _state["user"] and info.pid == _state["deadpid"])
             ev["steal"] = True
             if not ok and self.steal_bad is None:
-                self.steal_bad = "steal of a lock whose examined holder is not known dead: %r" % ev["examined"]
+                self.steal_bad = "steal of a lock whose examined holder is not known dead: %r%s" % (
+                    ev["examined"], " (the victim is a live locker that still is_held: two live holders can follow)" if ev.get("live") else "")
 
     # -- the driver of one locker
     def drive(self, L):
@@ -446,6 +476,7 @@ def run_sched(inp):
     n = len(sim.lockers)
     h0 = inp.get("h0")
     if h0 is not None:
+        sim.cur_acq = "initial"
         raw.mkdir("lock/held")
         if h0["c"] == "info":
             sim.nonces["extnonce0extnonce0ab"] = (n, 0)
@@ -468,6 +499,7 @@ def run_sched(inp):
     snaps, obsv, lives = [], [], []
     mutex_bad = None
     failed_held = None
+    two_holders = None
     try:
         for i, p in enumerate(inp["sched"]):
             sim.step(p)
@@ -480,6 +512,10 @@ def run_sched(inp):
                 mutex_bad = check_mutex(sim, i, s)
             if failed_held is None:
                 failed_held = check_failed_held(sim, i, s)
+            if two_holders is None:
+                hs = [L.pid for L in sim.lockers if L.ld.is_held and not L.dead]
+                if len(hs) > 1:
+                    two_holders = "after step %d lockers %r all believe they hold the lock" % (i, hs)
     finally:
         with sim.cv:
             sim.aborting = True
@@ -503,6 +539,9 @@ def run_sched(inp):
         "failed_held": failed_held,
         "final_is_held": [bool(L.ld.is_held) for L in sim.lockers],
         "steal_bad": sim.steal_bad,
+        "nonce_reuse": sim.nonce_reuse,
+        "two_holders": two_holders,
+        "later_bad": sim.later_bad,
         "final_held_nonce_owner": snaps[-1][0] if snaps else None,
     }
 
